@@ -20,7 +20,7 @@ type Dataset struct {
 	// Shrunk: some dimension was reduced since the last full write.
 	// Regrown: a dimension grew again after that (the regrown region must read as zero).
 	Shrunk, Regrown bool
-	Raw             []byte // element bytes (non-vlen), row-major
+	Raw             []byte   // element bytes (non-vlen), row-major
 	VLen            [][]byte // per-element payload (vlen)
 }
 
